@@ -167,8 +167,17 @@ def _probe(model):
     return y.detach(), [None if g is None else g.detach() for g in grads]
 
 
+HOOK_ATTRS = ("_forward_hooks", "_forward_pre_hooks", "_backward_hooks", "_backward_pre_hooks")
+
+
+def _hook_table(model):
+    """every hook currently registered, by module and hook dictionary: the user's own hooks must survive, nothing may be added"""
+    return {(name, attr): [id(h) for h in getattr(m, attr).values()] for name, m in model.named_modules() for attr in HOOK_ATTRS}
+
+
 def snapshot(model):
-    return {"state": {k: v.clone() for k, v in model.state_dict().items()},
+    return {"hooks": _hook_table(model),
+            "state": {k: v.clone() for k, v in model.state_dict().items()},
             "req": [p.requires_grad for p in model.parameters()],
             "grad": [None if p.grad is None else p.grad.clone() for p in model.parameters()],
             "probe": _probe(model)}
@@ -176,9 +185,14 @@ def snapshot(model):
 
 def check_unchanged(model, snap, ctl, where):
     ctl.arm = None
+    now = _hook_table(model)
     for name, m in model.named_modules():
-        for attr in ("_forward_hooks", "_forward_pre_hooks", "_backward_hooks", "_backward_pre_hooks"):
-            require(len(getattr(m, attr)) == 0, "leftover-hook", lambda: "%s: module %r keeps %d entr(ies) in %s" % (where, name or type(m).__name__, len(getattr(m, attr)), attr))
+        for attr in HOOK_ATTRS:
+            before, after = snap["hooks"][(name, attr)], now[(name, attr)]
+            require(all(h in before for h in after), "leftover-hook", lambda: "%s: module %r has %d new entr(ies) in %s" % (
+                where, name or type(m).__name__, len([h for h in after if h not in before]), attr))
+            require(all(h in after for h in before), "user-hook-removed", lambda: "%s: module %r lost a hook the caller had registered in %s" % (
+                where, name or type(m).__name__, attr))
         require(not hasattr(m, "handles"), "leftover-hook-handles", lambda: "%s: module %r still has a `handles` attribute" % (where, name or type(m).__name__))
     st_ = model.state_dict()
     for k, v in snap["state"].items():
@@ -279,8 +293,9 @@ def _same(a, b):
     return a == b
 
 
-def _fresh_result(seed, name):
+def _fresh_result(seed, name, variant=None):
     m, c = make_model(seed)
+    apply_variant(m, variant)
     with warnings.catch_warnings():
         warnings.simplefilter("ignore")
         try:
@@ -292,10 +307,11 @@ def _fresh_result(seed, name):
 _fresh_cache = {}
 
 
-def fresh(seed, name):
-    key = (seed, name)
+def fresh(seed, name, variant=None):
+    variant = variant if variant == "user_hooks" else None      # the other variants do not change what a call returns
+    key = (seed, name, variant)
     if key not in _fresh_cache:
-        _fresh_cache[key] = _fresh_result(seed, name)
+        _fresh_cache[key] = _fresh_result(seed, name, variant)
     return _fresh_cache[key]
 
 
@@ -304,6 +320,13 @@ def apply_variant(model, variant):
     if variant == "frozen_param":
         model.conv1.bias.requires_grad_(False)       # e.g. a partly frozen backbone: the flags must survive every call
         model.lin.weight.requires_grad_(False)
+    elif variant == "user_hooks":
+        # the caller's own hooks (an old-style backward hook on a non-linearity, a forward hook on a convolution) are part of the
+        # model: they must still be there afterwards, and nothing else may be
+        with warnings.catch_warnings():
+            warnings.simplefilter("ignore")
+            model.act1.register_backward_hook(lambda m, gi, go: None)
+        model.conv2.register_forward_hook(lambda m, i, o: None)
     elif variant == "bn_train_root_eval":
         model.eval()
         model.bn.train()                             # e.g. a layer swapped in after model.eval(): functions that evaluate the model must not update its buffers
@@ -341,7 +364,7 @@ def run_history(case, ctx):
             nt = True
         check_unchanged(model, snap, ctl, where + (" (raised %s)" % out[1] if out[0] == "raised" else ""))
         if fault is None:
-            ref = fresh(seed, name)
+            ref = fresh(seed, name, case.get("variant"))
             if ref[0] == "ok":
                 require(out[0] == "ok", "call-fails-on-used-model", lambda: "%s raised %s on the shared model but succeeds on a fresh copy" % (where, out[1]))
                 require(_same(out[1], ref[1]), "result-differs-from-fresh-copy", lambda: "%s after %r" % (where, case["history"][:step]))
@@ -378,7 +401,7 @@ def dls_enum(tier):
             cases.append({"seed": seed, "history": [[name, None if fault is None else list(fault)]]})
         for name in INVALID:
             cases.append({"seed": seed, "history": [[name, None]]})
-        for variant in ("frozen_param", "bn_train_root_eval"):
+        for variant in ("frozen_param", "bn_train_root_eval", "user_hooks"):
             for name in ALLOPS:
                 cases.append({"seed": seed, "variant": variant, "history": [[name, None]]})
             for name, fault in _crash_points(seed, ["dls"]):
@@ -442,7 +465,7 @@ def history_strategy(draw):
     for _ in range(n):
         name, fault = draw(st.sampled_from(steps))
         hist.append([name, None if fault is None else list(fault)])
-    return {"seed": seed, "history": hist, "variant": draw(st.sampled_from([None, None, "frozen_param", "bn_train_root_eval"]))}
+    return {"seed": seed, "history": hist, "variant": draw(st.sampled_from([None, None, "frozen_param", "bn_train_root_eval", "user_hooks"]))}
 
 
 def subchecks(tier):
